@@ -5,7 +5,11 @@ From Coq Require Import ZArith List Bool Lia ZifyBool Arith PeanoNat.
 From Draco Require Import Model.CornerTable Model.EbEncoder Proofs.CornerTable_proofs Proofs.EbEncoder_proofs.
 From Draco Require Model.Edgebreaker Proofs.Edgebreaker_proofs Proofs.Edgebreaker_fan_proofs Proofs.Edgebreaker_oob_proofs Proofs.Edgebreaker_compact_proofs.
 From Draco Require Import Proofs.EbSimDec_proofs Proofs.EbSimS_proofs.
+From Draco Require Proofs.EbSimCompact_proofs.
 Import ListNotations.
+
+Module DO := Draco.Proofs.Edgebreaker_oob_proofs.
+Module CP := Draco.Proofs.EbSimCompact_proofs.
 
 Section Loop.
 Variables (c2v : list nat) (opp : list (option nat)) (nf : nat).
@@ -299,17 +303,19 @@ Definition start_ok (B : list bool) : Prop :=
 Lemma start_loop_sim B : start_ok B -> NC = 3 * Z.of_nat (length Q) ->
   forall RS' i d, RS' = skipn i (tops (length Y)) ->
   let m := (length Y + cnt_true (firstn i B))%nat in
-  SIM m d -> DP.W NC maxv (Z.of_nat m) d -> DC.FJ (Z.of_nat m) d -> LAB m d -> D.invalid d = [] ->
+  SIM m d -> DP.W NC maxv (Z.of_nat m) d -> DC.FJ (Z.of_nat m) d -> LAB m d ->
   exists d', D.start_loop NC maxv (Z.of_nat (length Q)) (D.bits_of_list B) i (map (fun j => dco j 0) RS') d = D.Ok d' /\
-    SIM (length Q) d' /\ LAB (length Q) d' /\ D.invalid d' = [].
+    SIM (length Q) d' /\ LAB (length Q) d' /\ D.invalid d' = D.invalid d /\
+    DP.W NC maxv (Z.of_nat (length Q)) d' /\ DC.FJ (Z.of_nat (length Q)) d'.
 Proof.
   intros (SL & ST & SF) HNC'. set (ns := length Y) in *.
-  induction RS' as [|j R IH]; intros i d ERS m HS HW HJ HL Hinv.
+  induction RS' as [|j R IH]; intros i d ERS m HS HW HJ HL.
   - cbn [map D.start_loop]. eexists. split; [reflexivity|].
     assert (Hi : (length B <= i)%nat).
     { assert (L : length (skipn i (tops ns)) = 0%nat) by (rewrite <- ERS; reflexivity). rewrite skipn_length in L. lia. }
     assert (Em : m = length Q). { unfold m. rewrite firstn_all2 by lia. lia. }
-    rewrite Em in HS, HL. split; [destruct HS as [S1 S2 S3]; constructor; auto|]. split; [exact HL|exact Hinv].
+    rewrite Em in HS, HL, HW, HJ. split; [destruct HS as [S1 S2 S3]; constructor; auto|]. split; [exact HL|].
+    split; [reflexivity|]. split; [destruct HW; constructor; dproj; try assumption; constructor|destruct HJ; constructor; auto].
   - assert (Hi : (i < length (tops ns))%nat).
     { assert (L : length (skipn i (tops ns)) = S (length R)) by (rewrite <- ERS; reflexivity). rewrite skipn_length in L. lia. }
     assert (Ej : nth_error (tops ns) i = Some j).
@@ -406,15 +412,15 @@ Proof.
         assert (Em' : (ns + cnt_true (firstn (S i) B) = S m)%nat) by (unfold m; rewrite CS; lia).
         rewrite Nf2, Hnf in HW2. replace (Z.of_nat m + 1) with (Z.of_nat (S m)) in HW2 by lia.
         rewrite Nf2, Hnf in HJ2. replace (Z.of_nat m + 1) with (Z.of_nat (S m)) in HJ2 by lia.
-        destruct (IH (S i) d' ER) as (d2 & E2' & R1 & R2 & R3);
-          [rewrite Em'; exact HS'|rewrite Em'; exact HW2|rewrite Em'; exact HJ2|rewrite Em'; exact HL'|congruence|].
-        exists d2. auto.
+        destruct (IH (S i) d' ER) as (d2 & E2' & R1 & R2 & R3 & R4 & R5);
+          [rewrite Em'; exact HS'|rewrite Em'; exact HW2|rewrite Em'; exact HJ2|rewrite Em'; exact HL'|].
+        exists d2. split; [auto|]. split; [auto|]. split; [auto|]. split; [congruence|]. split; auto.
     + (* a boundary start configuration: nothing is created *)
       assert (Em' : (ns + cnt_true (firstn (S i) B) = m)%nat) by (unfold m; rewrite CS; lia).
-      destruct (IH (S i) (D.with_inits d ((false, dco j 0) :: D.inits d)) ER) as (d2 & E2' & R1 & R2 & R3);
+      destruct (IH (S i) (D.with_inits d ((false, dco j 0) :: D.inits d)) ER) as (d2 & E2' & R1 & R2 & R3 & R4 & R5);
         [rewrite Em'; destruct HS as [S1 S2 S3]; constructor; auto|rewrite Em'; apply DP.W_with_inits; auto
-        |rewrite Em'; destruct HJ; constructor; auto|rewrite Em'; exact HL|exact Hinv|].
-      exists d2. auto.
+        |rewrite Em'; destruct HJ; constructor; auto|rewrite Em'; exact HL|].
+      exists d2. split; [auto|]. split; [auto|]. split; [auto|]. split; [exact R3|]. split; auto.
 Qed.
 
 (** ** the decoder on a script without S and without split events (interior start faces allowed) *)
@@ -427,14 +433,68 @@ Proof.
   intros Complete Hq Sc SO. destruct (sym_loop_sim (length Y) (le_n _) Sc) as (d & E & HS & HW & HF & Hnv & Hev & (_ & Hinv) & Hst).
   rewrite firstn_all in E, Hinv. specialize (Hinv Hq). unfold D.eb_core. rewrite E. cbn [D.bind].
   pose proof (DP.w_nv _ _ _ _ HW) as Hn. replace (D.nv d >? maxv) with false by lia.
-  destruct (start_loop_sim B SO HNC (tops (length Y)) 0%nat d eq_refl) as (s' & E' & A1 & A2 & A3); auto.
+  destruct (start_loop_sim B SO HNC (tops (length Y)) 0%nat d eq_refl) as (s' & E' & A1 & A2 & A3 & _ & _); auto.
   { cbn [firstn]. unfold cnt_true. cbn. rewrite Nat.add_0_r. auto. }
   { cbn [firstn]. unfold cnt_true. cbn. rewrite Nat.add_0_r. auto. }
   { cbn [firstn]. unfold cnt_true. cbn. rewrite Nat.add_0_r. apply DC.FI_FJ. auto. }
   { cbn [firstn]. unfold cnt_true. cbn. rewrite Nat.add_0_r. apply FI_LAB. auto. }
   rewrite Hst, E'. cbn [D.bind]. rewrite (s_nf _ _ A1), Z.eqb_refl. cbn [negb].
-  rewrite A3. cbn [rev D.compact D.bind fst snd]. eexists _, s'. split; [reflexivity|].
+  rewrite A3, Hinv. cbn [rev D.compact D.bind fst snd]. eexists _, s'. split; [reflexivity|].
   apply sim_iso_lab; auto.
+Qed.
+
+(** ** the same for every value of remove_invalid_vertices: S symbols (without split events) allowed, the vertex COMPACTION
+    after the start-face phase accepts and renames the vertices injectively ([CP.compact_full]) *)
+Theorem dec_roundtrip_rm B :
+  (forall f, (f < nf)%nat -> is_degenerated c2v f = false -> In f (map (fun c => (c / 3)%nat) Q)) ->
+  (forall j, (j < length Y)%nat -> script_at j) -> start_ok B ->
+  exists n s, D.eb_core NC maxv (Z.of_nat (length Q)) rm Y [] (D.bits_of_list B) = D.Ok (n, s) /\ eb_iso c2v opp Q (D.c2v s) (D.copp s).
+Proof.
+  intros Complete Sc SO. destruct (sym_loop_sim (length Y) (le_n _) Sc) as (d & E & HS & HW & HF & Hnv & Hev & _ & Hst).
+  rewrite firstn_all in E. unfold D.eb_core. rewrite E. cbn [D.bind].
+  pose proof (DP.w_nv _ _ _ _ HW) as Hn. replace (D.nv d >? maxv) with false by lia.
+  destruct (start_loop_sim B SO HNC (tops (length Y)) 0%nat d eq_refl) as (s' & E' & A1 & A2 & A3 & HW2 & HJ2); auto.
+  { cbn [firstn]. unfold cnt_true. cbn. rewrite Nat.add_0_r. auto. }
+  { cbn [firstn]. unfold cnt_true. cbn. rewrite Nat.add_0_r. auto. }
+  { cbn [firstn]. unfold cnt_true. cbn. rewrite Nat.add_0_r. apply DC.FI_FJ. auto. }
+  { cbn [firstn]. unfold cnt_true. cbn. rewrite Nat.add_0_r. apply FI_LAB. auto. }
+  rewrite Hst, E'. cbn [D.bind]. rewrite (s_nf _ _ A1), Z.eqb_refl. cbn [negb].
+  (* the start faces change neither num_vertices nor the left-most corners *)
+  pose proof (s_nf _ _ HS) as Hnf.
+  assert (HWn : DP.W NC maxv (D.nfaces d) d) by (rewrite Hnf; exact HW).
+  assert (Hstk : Forall (fun c => 0 <= c < 3 * D.nfaces d) (D.stack d)) by apply (DP.w_stack _ _ _ _ HWn).
+  rewrite <- Hst in E'.
+  destruct (DP.start_loop_W NC maxv _ _ _ _ _ _ HNC HWn Hstk E') as (_ & _ & Env & _).
+  destruct (DO.start_loop_tail NC maxv _ (D.bits_of_list B) (D.stack d) O d HNC HWn) as (_ & T2).
+  { rewrite Hnf. apply DO.FI_NI. exact HF. }
+  { exact Hstk. }
+  destruct (T2 s' E') as (_ & Evc).
+  pose proof (DP.w_nv _ _ _ _ HW2) as Hn2.
+  destruct (CP.compact_full NC maxv (rev (D.invalid s')) (Z.to_nat (D.nv s')) s' (Z.of_nat (length Q)) HW2 HJ2)
+    as (k' & s3 & Ec & Eo & Enf & EQ).
+  - intros c Hc Nc.
+    pose proof (Z.div_mod c 3 ltac:(lia)) as DM. pose proof (Z.mod_pos_bound c 3 ltac:(lia)) as MB.
+    assert (c / 3 < Z.of_nat (length Q)) by (apply Z.div_lt_upper_bound; lia).
+    assert (0 <= c / 3) by (apply Z.div_pos; lia).
+    assert (Ec : c = dco (Z.to_nat (c / 3)) (Z.to_nat (c mod 3))) by (unfold dco; lia).
+    rewrite Ec in Nc |- *. apply A2; [lia|lia|exact Nc].
+  - intros c Hc. pose proof (DP.w_vr _ _ _ _ HW2 c Hc). lia.
+  - rewrite A3, Evc, Env. apply Forall_rev. destruct (DF.f_iso _ _ HF) as (Ai & _). pose proof (DP.w_invalid _ _ _ _ HW) as Bv.
+    rewrite Forall_forall in *. intros v Hv. split; [apply Bv; exact Hv|apply Ai; exact Hv].
+  - rewrite A3. apply NoDup_rev. apply (DF.f_iso _ _ HF).
+  - lia.
+  - destruct (DF.f_inv _ _ HF) as [Q0|Q0]; [left; rewrite A3, Q0; reflexivity|right; lia].
+  - rewrite Ec. cbn [D.bind fst snd]. eexists _, s3. split; [reflexivity|].
+    assert (Esl : forall c, DP.slf s3 c = DP.slf s' c) by (intros; unfold DP.slf, DP.oppf; rewrite Eo; reflexivity).
+    assert (Rd : forall j r, (j < length Q)%nat -> (r < 3)%nat -> 0 <= dco j r < 3 * Z.of_nat (length Q)) by (intros; unfold dco; lia).
+    apply sim_iso_lab; auto.
+    + constructor.
+      * rewrite Enf. exact (s_nf _ _ A1).
+      * intros j r Hj Hr. pose proof (s_opp _ _ A1 j r Hj Hr) as X. unfold s_opp_at in *. rewrite Eo. exact X.
+      * intros j r j' r' Hj Hr Hj' Hr' Ev. apply (s_vtx _ _ A1 j r j' r'); auto. apply EQ; auto.
+    + intros j r Hj Hr N. rewrite Esl in *.
+      destruct (DF.slf_created NC maxv s' _ _ HW2 (Rd j r Hj Hr)) as [Z0|Z0]; [congruence|].
+      apply EQ; auto.
 Qed.
 
 End Loop.
